@@ -123,7 +123,7 @@ def run():
     iso = [(k.name, k.entity_class, (lambda rng, k=k: k.make_node(rng))) for k in cat.KINDS if k.direction == "in" and k.entity_class]
     iso += list(extra_kinds.ISOLATION_ONLY)
     for name, cls_path, builder in iso:
-        for s in range(3 if thorough else 1):
+        for s in range(8 if thorough else 4):
             seed = base + 700 + s
             r.case(("entity-isolation", name, s))
             try:
